@@ -56,7 +56,7 @@ hs = [
              "KSI_HighAvailabilityService_reportErrorNotice", "KSI_AsyncHandle_getConfig"],
             "one configuration request (consolidation and announcement through callback stubs)"),
     {
-        "name": "h3_consolidate", "src": "h3_consolidate.c", "env": ["ctx", "list_wrap", "fmt_stub"], "tus": ["types"], "unwind": 4, "timeout": 300, "max_replays": 12,
+        "name": "h3_consolidate", "src": "h3_consolidate.c", "env": ["ctx", "list_wrap", "fmt_stub"], "tus": ["types"], "unwind": 4, "timeout": 300, "max_replays": 12, "object_bits": 12,
         "functions": ["KSI_AbstractHighAvailabilityService_new", "KSI_HighAvailabilityService_consolidateConfig", "KSI_Config_consolidateMaxLevel", "KSI_Config_consolidateAggrAlgo", "KSI_Config_consolidateAggrPeriod",
                       "KSI_Config_consolidateMaxRequests", "KSI_Config_consolidateCalendarFirstTime", "KSI_Config_consolidateCalendarLastTime", "KSI_Config_consolidateParentUri", "isMaxLevelValid", "isAggrPeriodValid",
                       "isMaxRequestsValid", "isCalendarTimeValid", "KSI_Config_new", "KSI_Config_free", "KSI_Config_setMaxLevel", "KSI_Config_getMaxLevel", "KSI_Integer_compare", "KSI_Integer_getUInt64", "KSI_Integer_free"],
